@@ -73,6 +73,26 @@ class _QueuedDone:
 _QueueItem = _QueuedEvent | _QueuedError | _QueuedDone
 
 
+async def _aiter_sse_lines(response: httpx.Response) -> AsyncIterator[str]:
+    """Yield the lines of an SSE response, splitting on LF / CRLF only.
+
+    ``httpx.Response.aiter_lines`` splits like ``str.splitlines``, i.e. also on
+    U+2028, U+2029, U+0085 etc. Those may appear unescaped inside the JSON of a
+    ``data:`` line, which would cut the payload in two.
+    """
+    buffer = ""
+    async for text in response.aiter_text():
+        buffer += text
+        while True:
+            idx = buffer.find("\n")
+            if idx < 0:
+                break
+            line, buffer = buffer[:idx], buffer[idx + 1 :]
+            yield line[:-1] if line.endswith("\r") else line
+    if buffer:
+        yield buffer
+
+
 class EventStream:
     """Async iterator over workflow events that exposes the current stream position.
 
@@ -387,7 +407,7 @@ class WorkflowClient:
 
                                 # Parse SSE stream: "id: N\ndata: {...}\n\n"
                                 current_id: str | None = None
-                                async for line in response.aiter_lines():
+                                async for line in _aiter_sse_lines(response):
                                     stripped = line.strip()
                                     if not stripped:
                                         # Empty line = end of SSE event
